@@ -539,6 +539,17 @@ func execCopyStable(c *ctx, line string, f []string) string {
 	for n := int(parseU(t.next())); n > 0; n-- {
 		kis = append(kis, ki{parseHex(t.next()), parseU(t.next())})
 	}
+	// optional: what the destination holds before the copy
+	var dkvs []kv
+	var dkis []ki
+	if t.i != len(f) {
+		for n := int(parseU(t.next())); n > 0; n-- {
+			dkvs = append(dkvs, kv{parseHex(t.next()), parseHex(t.next())})
+		}
+		for n := int(parseU(t.next())); n > 0; n-- {
+			dkis = append(dkis, ki{parseHex(t.next()), parseU(t.next())})
+		}
+	}
 	if t.i != len(f) {
 		return "badinput"
 	}
@@ -565,6 +576,19 @@ func execCopyStable(c *ctx, line string, f []string) string {
 		if err := srcS.SetUint64(kis[i].k, kis[i].v); err != nil {
 			panic(err)
 		}
+	}
+	for i := len(dkvs) - 1; i >= 0; i-- {
+		if err := dstS.Set(dkvs[i].k, dkvs[i].v); err != nil {
+			panic(err)
+		}
+	}
+	for i := len(dkis) - 1; i >= 0; i-- {
+		if err := dstS.SetUint64(dkis[i].k, dkis[i].v); err != nil {
+			panic(err)
+		}
+	}
+	if len(dkvs)+len(dkis) > 0 {
+		c.stat("stb_nonempty_destination")
 	}
 	c.stat("stb_pair_" + srcKind + dstKind)
 	ctxx, cancel := context.WithCancel(context.Background())
@@ -642,18 +666,25 @@ func execCopyStable(c *ctx, line string, f []string) string {
 			}
 		}
 	}
-	// keys that were not requested must not appear in the destination
-	for _, e := range kvs {
+	// keys that were not requested keep what the destination held before (nothing, if it was empty)
+	preK, preI := map[string]string{}, map[string]uint64{}
+	for i := len(dkvs) - 1; i >= 0; i-- {
+		preK[string(dkvs[i].k)] = string(dkvs[i].v)
+	}
+	for i := len(dkis) - 1; i >= 0; i-- {
+		preI[string(dkis[i].k)] = dkis[i].v
+	}
+	for _, e := range append(append([]kv(nil), kvs...), dkvs...) {
 		if !requested["k:"+string(e.k)] {
-			if dv, derr := dstS.Get(e.k); derr == nil && len(dv) > 0 {
-				c.witness("C19", "stable-unrequested-key", fmt.Sprintf("key %q was copied although not requested", e.k), line)
+			if dv, derr := dstS.Get(e.k); derr == nil && string(dv) != preK[string(e.k)] {
+				c.witness("C19", "stable-unrequested-key", fmt.Sprintf("key %q was not requested but the destination now holds %x (before: %x)", e.k, dv, preK[string(e.k)]), line)
 			}
 		}
 	}
-	for _, e := range kis {
+	for _, e := range append(append([]ki(nil), kis...), dkis...) {
 		if !requested["i:"+string(e.k)] {
-			if dv, derr := dstS.GetUint64(e.k); derr == nil && dv != 0 {
-				c.witness("C19", "stable-unrequested-key", fmt.Sprintf("int key %q was copied although not requested", e.k), line)
+			if dv, derr := dstS.GetUint64(e.k); derr == nil && dv != preI[string(e.k)] {
+				c.witness("C19", "stable-unrequested-key", fmt.Sprintf("int key %q was not requested but the destination now holds %d (before: %d)", e.k, dv, preI[string(e.k)]), line)
 			}
 		}
 	}
@@ -862,8 +893,25 @@ func genMig(c *ctx, emit func(string)) {
 			}
 			return " " + strings.Join(xs, " ")
 		}
-		emit(fmt.Sprintf("stb %s %s %s %s %x%s %x%s %x%s %x%s", src, dst, prog, cancelS,
-			len(extra), join(extra), len(extraInt), join(extraInt), len(kvs), join(kvs), len(kis), join(kis)))
+		line := fmt.Sprintf("stb %s %s %s %s %x%s %x%s %x%s %x%s", src, dst, prog, cancelS,
+			len(extra), join(extra), len(extraInt), join(extraInt), len(kvs), join(kvs), len(kis), join(kis))
+		if r.Intn(3) == 0 {
+			// the destination is not empty: stale values for copied keys (they must be replaced,
+			// also by an unset / zero source value) and for keys nobody copies (they must stay)
+			var dk, di []string
+			for _, k := range []string{"LastVoteCand", "app_key_0", "app_key_3", "keep_me"} {
+				if r.Intn(2) == 0 {
+					dk = append(dk, hx([]byte(k))+" "+hx([]byte("stale")))
+				}
+			}
+			for _, k := range []string{"CurrentTerm", "LastVoteTerm", "app_int_1", "keep_int"} {
+				if r.Intn(2) == 0 {
+					di = append(di, hx([]byte(k))+" "+fmt.Sprintf("%x", 7+r.Intn(100)))
+				}
+			}
+			line += fmt.Sprintf(" %x%s %x%s", len(dk), join(dk), len(di), join(di))
+		}
+		emit(line)
 	}
 }
 
